@@ -21,7 +21,8 @@ PID = "C02"
 FINDING = "C02-reopen-walphase"
 FINDING_MS = "C02-mergeself-mintime-order"
 FINDING_FC = "C02-desc-filecursor-lastfile"
-VARIANTS = [(False, 0), (True, 0), (False, 1), (False, 2), (True, 1), (True, 2)]  # (wal replay current, merge-self mode)
+VARIANTS = [(False, 0), (True, 0), (False, 3), (True, 3)]  # (wal replay current, merge-self mode: 0 repaired, 3 = today's
+# minimum-time order with the tie order among equal minimum times searched by the evaluator)
 
 
 # ---------------------------------------------------------------------------------------------------------------
@@ -358,8 +359,14 @@ def main(ck):
     # entries of the committed per-property fragment that the merged known_findings.json does not hold yet
     frag = os.path.join(ck.verif, "props", PID, "findings.json")
     if os.path.exists(frag):
-        have = {f["id"] for f in ck.findings}
-        ck.findings += [f for f in json.load(open(frag))["findings"] if f["property"] == PID and f["id"] not in have]
+        have = {f["id"]: f for f in ck.findings}
+        for f in json.load(open(frag))["findings"]:
+            if f["property"] != PID:
+                continue
+            if f["id"] not in have:
+                ck.findings.append(f)
+            elif f.get("status") == "fixed":
+                have[f["id"]]["status"] = "fixed"  # the fragment is ahead of the merged file; fixed suppresses nothing
     finding = ck.match_finding(FINDING)
     finding_ms = ck.match_finding(FINDING_MS)
     # self-test knob (can only make the check stricter): treat the named open findings as already fixed
